@@ -74,7 +74,7 @@ class Sink:
 
 
 class Taint:
-    def __init__(self, world, doc_types, decoded_enums=(), source_calls=None, bounded_sanitize=True, no_prop=None, io_calls=None, skip_bodies=None):
+    def __init__(self, world, doc_types, decoded_enums=(), source_calls=None, bounded_sanitize=True, no_prop=None, io_calls=None, skip_bodies=None, heap_read_ignore=(), carry_field_types=False):
         self.w = world
         self.lib = world.lib
         self.g = world.graph
@@ -84,6 +84,9 @@ class Taint:
         self.no_prop = no_prop or NO_PROP
         self.io_calls = io_calls or IO_CALLS
         self.skip_bodies = skip_bodies
+        self.heap_read_ignore = set(heap_read_ignore)
+        self.carry_field_types = carry_field_types
+        self.real_sites = defaultdict(set)      # sink id -> bodies in which it became real
         self.decoded_enums = set(decoded_enums)
         self.V = defaultdict(set)     # (body, local) -> labels
         self.D = defaultdict(set)
@@ -159,7 +162,7 @@ class Taint:
                 V = set()
         for (adt, fname, fty) in walked:
             last_field = (adt, fname, fty)
-            if adt in self.doc_types or (adt, fname) in self.heap:
+            if adt in self.doc_types or ((adt, fname) in self.heap and (adt, fname) not in self.heap_read_ignore):
                 V.add(SRC)
         if last_field is not None and proj and proj[-1].startswith("f:"):
             adt, fname, fty = last_field
@@ -185,6 +188,20 @@ class Taint:
         carry = {}
         for n in adts:
             carry[n] = n in self.doc_types or n in self.decoded_enums or any((n, f["name"]) in self.heap for v in adts[n]["variants"] for f in v["fields"])
+        # downwards: a newtype / struct that is (part of) a field of a decoded document is decoded data
+        # itself (Apath, BlockHash, UnixMode, Owner, ...)
+        todo = [n for n in adts if n in self.doc_types] if self.carry_field_types else []
+        seen = set(todo)
+        while todo:
+            n = todo.pop()
+            for v in adts[n]["variants"]:
+                for f in v["fields"]:
+                    for m in self._adt_rx.findall(f["ty"]):
+                        if m in adts:
+                            carry[m] = True
+                            if m not in seen:
+                                seen.add(m)
+                                todo.append(m)
         changed = True
         while changed:
             changed = False
@@ -582,6 +599,7 @@ class Taint:
         # closures: substitute captured-variable labels with what the parent passes
         for sid, s in list(table.items()):
             if SRC in s.labels:
+                self.real_sites[sid].add(body.name)
                 if sid not in self.real:
                     self.real[sid] = s
                     changed = True
@@ -602,6 +620,8 @@ class Taint:
                 ns = Sink(s.kind, s.body, s.bb, s.line, labs | (old.labels if old else set()), s.msg, s.name)
                 ns.via = "%s -> %s" % (body.name, s.via or tg)
                 table[sid] = ns
+                if SRC in ns.labels:
+                    self.real_sites[sid].add(body.name)
                 if SRC in ns.labels and sid not in self.real:
                     self.real[sid] = ns
                 self.pending.add(body.name)
@@ -634,6 +654,8 @@ class Taint:
                     ns = Sink(s.kind, s.body, s.bb, s.line, labs | (old.labels if old else set()), s.msg, s.name)
                     ns.via = "%s -> %s" % (pb.name, s.via or cname)
                     ptable[sid] = ns
+                    if SRC in ns.labels:
+                        self.real_sites[sid].add(pb.name)
                     if SRC in ns.labels and sid not in self.real:
                         self.real[sid] = ns
                     changed = True
